@@ -741,11 +741,26 @@ impl Session {
             Err(ErrorCode::Duplicate)?;
         }
 
-        let exch_index = self.get_exch_for_rx(&rx_header.proto);
+        // Group data messages never use MRP: a (protocol-violating) R or A flag
+        // must not leave an acknowledgement behind that nobody can send
+        // (group control messages are unicast-addressed and stay reliable)
+        let mut group_proto;
+        let rx_proto = if matches!(self.mode, SessionMode::Group { .. })
+            && !rx_header.plain.is_control_msg()
+        {
+            group_proto = rx_header.proto.clone();
+            group_proto.unset_reliable();
+            group_proto.set_ack(None);
+            &group_proto
+        } else {
+            &rx_header.proto
+        };
+
+        let exch_index = self.get_exch_for_rx(rx_proto);
         if let Some(exch_index) = exch_index {
             let exch = unwrap!(self.exchanges[exch_index].as_mut());
 
-            exch.post_recv(&rx_header.plain, &rx_header.proto)?;
+            exch.post_recv(&rx_header.plain, rx_proto)?;
 
             Ok(false)
         } else {
@@ -772,7 +787,7 @@ impl Session {
                 // unwrap is safe as we just created the exchange
                 let exch = unwrap!(self.exchanges[exch_index].as_mut());
 
-                exch.post_recv(&rx_header.plain, &rx_header.proto)?;
+                exch.post_recv(&rx_header.plain, rx_proto)?;
 
                 Ok(true)
             } else {
